@@ -206,7 +206,7 @@ package vamana
 // loop's copy of the element; such a pointer into a local struct is outside the memory model and
 // is abstracted, so the pointed-to value is not part of this contract.)
 //@ func (*IndexVamana).Search
-//@   property C03
+//@   property C03 C06
 //@   floats order
 //@   safety -overflow -nil -makelen +subptr-abstract
 //@   requires query.Limit >= 1
